@@ -1,13 +1,14 @@
 package c15
 
 import (
+	"context"
 	"encoding/xml"
-	"errors"
 	"fmt"
 	"os"
 	"path/filepath"
 
 	"deps.dev/util/maven"
+	"verif/harness/mon/c15/mpr"
 )
 
 // The library side. The pipeline below is kept textually parallel to
@@ -15,8 +16,6 @@ import (
 // the ProcessDependencies call) and to resolve.APIClient.mavenRequirements,
 // from which the "root's own profiles first" step is taken. The only change is
 // that fetchProject reads <repo>/<g>/<a>/<v>/pom.xml instead of Maven Central.
-
-const maxParent = 100
 
 type libPipeline struct {
 	repo string
@@ -38,35 +37,10 @@ func (lp *libPipeline) fetchProject(pk maven.ProjectKey) (maven.Project, error) 
 	return proj, nil
 }
 
-// mergeParents fetches parent POM files and then merges their data recursively.
-// current is the project to start fetching parents.
-// start specifies the index of current project, and it is used to determine if "pom" packaging is needed.
-// result holds the merged Maven project data.
+// mergeParents is the example's own function (verbatim copy regenerated from
+// the tree under test at build time, package mpr) reading the scratch repository.
 func (lp *libPipeline) mergeParents(current maven.ProjectKey, start int, result *maven.Project) error {
-	visited := make(map[maven.ProjectKey]bool, maxParent)
-	for n := start; n < maxParent; n++ {
-		if current.GroupID == "" || current.ArtifactID == "" || current.Version == "" {
-			break
-		}
-		if visited[current] {
-			return errors.New("cycle of parent projects")
-		}
-		visited[current] = true
-
-		proj, err := lp.fetchProject(current)
-		if err != nil {
-			return err
-		}
-		if n > 0 && proj.Packaging != "pom" {
-			return fmt.Errorf("invalid packaging for parent project %s", proj.Packaging)
-		}
-		if err := proj.MergeProfiles(maven.JDKProfileActivation, maven.OSProfileActivation); err != nil {
-			return err
-		}
-		result.MergeParent(proj)
-		current = proj.Parent.ProjectKey
-	}
-	return result.Interpolate()
+	return mpr.MergeParents(mpr.WithRepo(context.Background(), lp.repo), current, start, result)
 }
 
 // effective runs the documented pipeline on the pom file and returns the
